@@ -234,7 +234,7 @@ pub fn c14_run(args: &Args) -> i32 {
 }
 
 /// One round of the isready flood; returns (stdout lines checked, first malformed line).
-fn flood_round() -> Result<(u64, Option<String>), String> {
+pub fn flood_round() -> Result<(u64, Option<String>), String> {
     use super::uciproc::Engine;
     use std::time::Duration;
     let mut e = Engine::start(None, &[])?;
